@@ -2,6 +2,7 @@
 (* Trace validation of the real network paths against the Net monitor.  Events (ndjson):
      {"e":"reset","case":c}
      {"e":"send","pat":p,"src":s,"dst":d,"mid":i,"p":<payload as JSON>}
+     {"e":"bcast","pat":3|5,"src":s,"nb":n,"mid":i,"p":<payload>}   broadcast to members 0..n-1
      {"e":"deliver","pat":p,"at":d,"from":s,"mid":i,"p":<decoded payload as JSON>}
      {"e":"quiesce"}
      {"e":"rt","raw":..,"tagless":..,"back":..,"retag":..,"wire":..,"wire_tagless":..,"eq":b}
@@ -23,6 +24,9 @@ TReset == Ev.e = "reset" /\ NReset /\ case' = Ev.case
 TSend == /\ Ev.e = "send"
          /\ NSend([pat |-> Ev.pat, src |-> Ev.src, dst |-> Ev.dst, mid |-> Ev.mid, p |-> ToJson(Ev.p)])
          /\ UNCHANGED case
+TBcast == /\ Ev.e = "bcast"
+          /\ NBcast([pat |-> Ev.pat, src |-> Ev.src, mid |-> Ev.mid, p |-> ToJson(Ev.p)], 0..(Ev.nb - 1))
+          /\ UNCHANGED case
 TDeliver == /\ Ev.e = "deliver"
             /\ NDeliver([pat |-> Ev.pat, at |-> Ev.at, from |-> Ev.from, mid |-> Ev.mid, p |-> ToJson(Ev.p)])
             /\ UNCHANGED case
@@ -37,7 +41,7 @@ TEof == Ev.e = "eof" /\ UNCHANGED <<net, case>> /\ PrintT(<<"VIOL", ToJson(viol)
 
 TNext ==
     /\ Consume
-    /\ (TReset \/ TSend \/ TDeliver \/ TQuiesce \/ TRt \/ TPanic \/ TEnd \/ TEof)
+    /\ (TReset \/ TSend \/ TBcast \/ TDeliver \/ TQuiesce \/ TRt \/ TPanic \/ TEnd \/ TEof)
     /\ viol' = viol \cup {<<case', b>> : b \in Broken'}
 
 TSpec == TInit /\ [][TNext]_tvars
